@@ -173,6 +173,30 @@ def entry_points(d, v, tmp):
             written = json.load(f)
         return ("written", written)
 
+    def mem_store_add_bundle20_dict():
+        s = stix2.MemoryStore()
+        s.add(dict(BUN, spec_version="2.0", objects=[dict(d)]), version=v)
+        return s.get(sid)
+
+    def mem_store_ctor_bundle20_dict():
+        return stix2.MemoryStore(stix_data=dict(BUN, spec_version="2.0", objects=[dict(d)]), version=v).get(sid)
+
+    def mem_load_bundle20_file():
+        p = os.path.join(tmp, "three.json")
+        with open(p, "w") as f:
+            json.dump(dict(BUN, spec_version="2.0", objects=[d]), f)
+        s = stix2.MemoryStore()
+        s.load_from_file(p, version=v)
+        return s.get(sid)
+
+    def fs_sink_add_bundle20_dict():
+        root = fs_dir()
+        stix2.FileSystemSink(root, allow_custom=True).add(dict(BUN, spec_version="2.0", objects=[dict(d)]), version=v)
+        files = [os.path.join(dp, f) for dp, _, fs in os.walk(root) for f in fs]
+        with open(files[0], encoding="utf-8") as f:
+            written = json.load(f)
+        return ("written", written)
+
     def fs_store_add_get():
         root = fs_dir()
         st = stix2.FileSystemStore(root, allow_custom=True)
@@ -220,6 +244,12 @@ def entry_points(d, v, tmp):
         # version is for them
         eps += [("MemoryStore.add(bundle dict, version)", mem_store_add_bundle_dict, "class"),
                 ("FileSystemSink.add(bundle dict, version)", fs_sink_add_bundle_dict, "written")]
+        if v is not None and "spec_version" not in d:
+            # the wrapper's own spec_version property does not outrank the version the caller names
+            eps += [("MemoryStore.add(bundle dict with spec_version, version)", mem_store_add_bundle20_dict, "class"),
+                    ("MemoryStore(stix_data=bundle dict with spec_version, version)", mem_store_ctor_bundle20_dict, "class"),
+                    ("MemoryStore.load_from_file(bundle file with spec_version, version)", mem_load_bundle20_file, "class"),
+                    ("FileSystemSink.add(bundle dict with spec_version, version)", fs_sink_add_bundle20_dict, "written")]
     if "modified" in d:
         eps += [("FileSystemSource.get(id, version) [legacy flat file]", fs_legacy_get, "class"),
                 ("FileSystemSource.query(id, version) [legacy flat file]", fs_legacy_query, "class")]
@@ -260,8 +290,15 @@ def wl_dicts(ctx, rng, i):
     tmp = tempfile.mkdtemp(prefix="stixmon-c14-")
     try:
         for idkind, d in variants:
+            # history: the same content (and so the same identifier text) was first read under the more lenient version
+            outcome(lambda: stix2.parse(dict(d), allow_custom=True, version="2.1"))
+            outcome(lambda: stix2.v21.Identity(name="p", created_by_ref="identity--" + d["id"].split("--", 1)[1]))
             for v in VERSIONS:
                 ref = outcome(lambda: stix2.parse(dict(d), allow_custom=True, version=v))
+                if idkind == "version-1-uuid" and v == "2.0" and ref != "refused":
+                    # 2.0 identifiers are UUIDv4; naming 2.0 never relaxes that, whatever was read before
+                    ctx.violation("strictness-relaxed:uuid-version", "a non-UUIDv4 identifier was accepted with version='2.0' named (after the same content had been read as 2.1)",
+                                  {"input": d, "version": v, "id_kind": idkind, "outcome": ref})
                 ctx.see("direct outcomes", "%s/%s/%s" % (idkind, v, "refused" if ref == "refused" else "accepted"))
                 # the strict direct parse and parse_observable as further reference points
                 strict = outcome(lambda: stix2.parse(dict(d), allow_custom=False, version=v))
